@@ -1,5 +1,6 @@
 import MosnVerif.Drive.Util
 import MosnVerif.Model.StreamTableSpec
+import MosnVerif.Model.CorrelateSpec
 namespace MosnVerif.Drive.C02
 open MosnVerif.Drive MosnVerif.Model.StreamTable
 
@@ -121,8 +122,127 @@ def genLine (pr base n : String) (impl : List String) : String :=
     s!"{if agree then "A" else "D"} {if spec then "S" else "V"} {model}"
   | _, _, _, _ => "E E bad-case"
 
+
+/-! ### kind `e2e`: the end-to-end run through the proxy
+`e2e <warm> <did:tok:kind,…> <script> => b<base> c<upstream connections> <log> <uid/tok,…> <id/status/htok/btok,…>`.
+The log is the schedule the harness observed / enforced: `Q<k>` request k decoded, `F<k>` forwarded (seen by the
+upstream), `B<k>` try given up for a retry, `A<i>` upstream answers the i-th frame it received, `J<id>` reply with an
+unknown id, `T<k>` local error reply, `X` upstream connection closed. -/
+namespace E2E
+open MosnVerif.Model.Correlate
+
+def list (t : String) : List String := if t == "-" then [] else splitNE t ","
+
+structure Req where
+  did : Int
+  tok : Nat
+
+def parseReq (t : String) : Option Req :=
+  match t.splitOn ":" with
+  | [d, k, _] => match parseInt? d, k.toNat? with
+    | some d, some k => some { did := d, tok := k }
+    | _, _ => none
+  | _ => none
+
+/-- requests written by the client: the members of the `S` steps of the script -/
+def sentOf (script : String) : Option (List Nat) :=
+  ((list script).filter (·.startsWith "S")).foldlM (fun acc t =>
+    ((splitNE (t.drop 1).toString ".").mapM String.toNat?).map (acc ++ ·)) []
+
+/-- position of harness request `k` among the `Q` events so far (the model numbers exchanges in arrival order) -/
+def exOf (qs : List Nat) (k : Nat) : Option Nat :=
+  let i := qs.findIdx (· == k)
+  if i < qs.length then some i else none
+
+def tokStr (t : String) : Option Nat := if t.startsWith "t" then (t.drop 1).toString.toNat? else none
+
+/-- classify an observed downstream frame `id/status/htok/btok` -/
+def parseDn (t : String) : Option (Int × Payload) :=
+  match t.splitOn "/" with
+  | [i, st, h, b] =>
+    match parseInt? i, st.toNat? with
+    | some i, some st =>
+      if st == 0 then
+        match tokStr h, tokStr b with
+        | some x, some y => some (i, if x == y then .ok x else .mixed)
+        | _, _ => some (i, .mixed)
+      else some (i, if h == "-" && b == "-" then .err else .mixed)
+    | _, _ => none
+  | _ => none
+
+def renderFrame (f : Int × Payload) : String :=
+  match f.2 with
+  | .ok t => s!"{f.1}/t{t}"
+  | .err => s!"{f.1}/e"
+  | .mixed => s!"{f.1}/mixed"
+
+/-- replay the log on the model; `fw` = the forwards so far as (harness request, index of its frame on the upstream
+wire); `none` = malformed log -/
+def replay (reqs : List Req) : Sys → List Nat → List (Nat × Nat) → List String → Option Sys
+  | s, _, _, [] => some s
+  | s, qs, fw, t :: r =>
+    let arg := (t.drop 1).toString
+    if t == "X" then replay reqs (step s .connReset) qs fw r
+    else if t.startsWith "A" then
+      -- `A<k>.<try>`: the upstream answers the try-th frame it received for request k, echoing its token
+      match arg.splitOn "." with
+      | [a, b] => match a.toNat?, b.toNat? with
+        | some k, some j => match ((fw.filter (·.1 == k)).map (·.2))[j - 1]? with
+          | some i => match s.wire[i]? with
+            | some (id, tok) => replay reqs (step s (.reply id tok true)) qs fw r
+            | none => none
+          | none => none
+        | _, _ => none
+      | _ => none
+    else match arg.toNat? with
+      | none => none
+      | some n =>
+        if t.startsWith "Q" then
+          match reqs[n]? with
+          | some q => replay reqs (step s (.request q.did q.tok true)) (qs ++ [n]) fw r
+          | none => none
+        else if t.startsWith "J" then replay reqs (step s (.reply n 999 true)) qs fw r
+        else match exOf qs n with
+          | none => none
+          | some k =>
+            if t.startsWith "F" then
+              let s' := step s (.forward k)
+              replay reqs s' qs (if s'.wire.length == s.wire.length then fw else fw ++ [(n, s.wire.length)]) r
+            else if t.startsWith "B" then replay reqs (step s (.abandon k)) qs fw r
+            else if t.startsWith "T" then replay reqs (step s (.fail k)) qs fw r
+            else none
+
+def run (reqsT script : String) (impl0 : List String) : String :=
+  -- a 6th token `skew:<why>`: the run did not follow its plan's timing (three attempts); the schedule is not replayed,
+  -- the predicate is still evaluated on the frames the client received
+  let skew := impl0.length == 6 && (impl0.getLast?.getD "").startsWith "skew:"
+  let impl := if skew then impl0.dropLast else impl0
+  match (list reqsT).mapM parseReq, sentOf script, impl with
+  | some reqs, some sent, [bT, cT, logT, upT, dnT] =>
+    match (bT.drop 1).toString.toNat?, (list dnT).mapM parseDn with
+    | some base, some dn =>
+      let sentReqs := sent.filterMap (fun k => reqs[k]?.map (fun q => (q.did, q.tok)))
+      if skew then s!"A {if specE2E sentReqs dn then "S" else "V"} skew" else
+      match replay reqs (init .bolt base) [] [] (list logT) with
+      | none => "E E bad-log"
+      | some s =>
+        let wireM := s.wire.map (fun x => s!"{x.1}/{x.2}")
+        let dnM := sortStrings ((framesOf s).map renderFrame)
+        let model := s!"{if wireM.isEmpty then "-" else ",".intercalate wireM} {if dnM.isEmpty then "-" else ",".intercalate dnM}"
+        let agree := cT == "c1" && sortStrings (list upT) == sortStrings wireM && sortStrings (dn.map renderFrame) == dnM
+        -- the property predicate on what the client saw: requests it wrote vs frames it read
+        let spec := specE2E sentReqs dn
+        s!"{if agree then "A" else "D"} {if spec then "S" else "V"} {model}"
+    | _, _ => "E E bad-impl"
+  -- the harness could not complete one plain exchange through the proxy (nothing to evaluate the predicate on)
+  | some _, some _, ["warmup-failed"] => "D S no-exchange-completes"
+  | _, _, _ => "E E bad-case"
+
+end E2E
+
 def run (caseToks impl : List String) : String :=
   match caseToks with
+  | ["e2e", _, reqs, script] => E2E.run reqs script impl
   | ["tbl", pr, base, ops] => tbl pr base ops impl
   | ["gen", pr, base, n] => genLine pr base n impl
   | _ => "E E unknown-kind"
